@@ -15,6 +15,7 @@ AtLeastMin(z) == z # "min-1"
 Cases == [ae : AE, ct : CT, size : Sizes, compressible : BOOLEAN, explicit : BOOLEAN, status : {200, 201, 404},
           pre : BOOLEAN,        \* the handler already sends Content-Encoding: gzip
           setcl : BOOLEAN,      \* the handler declares Content-Length
+          flush : BOOLEAN,      \* the handler calls Flush between its two writes (a proxy copy loop does)
           level : {-1, 0, 1, 5, 9}, pos : {"alone", "inner", "outer"}]
 
 Eligible(c) == ListsGzip(c.ae) /\ Matches(c.ct) /\ AtLeastMin(c.size) /\ ~c.pre
